@@ -14,6 +14,8 @@ Sections
               consistent; self-registration through eval(T) equals the definition; ideal_spacing / slices vs Coq model.
   many-bins   histograms with 257..32767 bins on an axis and mass in the high bins (measures, L1, eval with > 256 bins).
   nonsquare   all 8 measures on non-square histograms vs textbook (pmi/dpmi with an independent Gaussian filter).
+  distloss    dist2loss / SupervisedLikelihoodRatio vs ModelLoss.v: log argument observed exactly, measure with an exact
+              stand-in for the log oracle compared exactly.
   reuse       every measure (incl. pmi, dpmi, slr) evaluated repeatedly, several measure / registration objects built
               from the same caller arrays: results independent of history, caller arrays unmodified, slr = textbook.
   helpers     clamp, smallest_bounding_box, subgrid_affine / _slicer.
@@ -30,7 +32,7 @@ from fractions import Fraction as F
 
 import numpy as np
 
-from ..kit import cz, cq, czl, cql, cnat, frac, VERIF
+from ..kit import cz, cq, czl, cql, cnat, cbool, frac, VERIF
 
 HDR = ("From Coq Require Import ZArith QArith List.\nFrom NV.Lib Require Import C09Base Harness.\n"
        "From NV.Generated Require Import JointHist.\nFrom NV.C09 Require Import Model.\n")
@@ -1595,6 +1597,144 @@ def reuse(ck):
     ck.section("reuse", measures=ALL_SIMS)
 
 
+# ------------------------------------------------------------------ dist2loss / slr: model correspondence
+HDRLOSS = HDR + "From NV.C09 Require Import ModelLoss.\n"
+# exact stand-in for the log oracle (the theorems hold for EVERY function in its place): -1024 on the TINY floor, identity above
+STANDIN_COQ = "(fun x : Q => if Qle_bool x (1 # (2 ^ 1000)) then (-1024 # 1)%Q else x)"
+
+
+class _NumpyTap:
+    """Stand-in for the module-level name `np` of similarity_measures.py: every attribute is numpy's; `log` records the
+    array it is given (and optionally is replaced by an exact function), so the argument of the log oracle is observed."""
+
+    def __init__(self, real, standin=None):
+        self._real, self._standin, self.calls = real, standin, []
+
+    def __getattr__(self, k):
+        return getattr(self._real, k)
+
+    def log(self, *a, **kw):
+        self.calls.append(([np.array(x, dtype=float) for x in a], sorted(kw)))
+        if self._standin is not None and len(a) == 1 and not kw:
+            return self._standin(np.asarray(a[0], dtype=float))
+        return self._real.log(*a, **kw)
+
+
+def exact_dist(rng, n):
+    """Distribution models on which every float operation of dist2loss is exact: sums of cyclic-shift permutation blocks
+    with weights adding up to a power of two (all non-empty row / column sums are the same power of two), embedded in an
+    a x b array whose other rows / columns are empty (marginal 0 -> TINY floor), scaled by a power of two."""
+    a, b = int(rng.integers(1, 6)), int(rng.integers(1, 6))
+    m = int(rng.integers(1, min(a, b) + 1))
+    ws = [[1], [1, 1], [1, 3], [2, 1, 1], [5, 3], [1, 2, 5], [4, 2, 1, 1], [7, 1], [3, 3, 1, 1], [1, 1, 1, 1, 4]]
+    w = [x for x in ws[int(rng.integers(len(ws)))]][:m]
+    while sum(w) & (sum(w) - 1):
+        w[0] += 1
+    shifts = rng.permutation(m)[:len(w)]
+    core = np.zeros((m, m))
+    for wk, sk in zip(w, shifts):
+        for i in range(m):
+            core[i, (i + int(sk)) % m] += wk
+    q = np.zeros((a, b))
+    ri = np.sort(rng.permutation(a)[:m])
+    cj = np.sort(rng.permutation(b)[:m])
+    q[np.ix_(ri, cj)] = core
+    scale = int(rng.integers(-12, 3)) if n % 5 else int(rng.choice([-600, -60, 40]))
+    return q * 2.0 ** scale, scale
+
+
+def cqmat(M):
+    return "[" + "; ".join(cql([frac(float(x)) for x in row]) for row in M) + "]"
+
+
+def distloss(ck):
+    """dist2loss and SupervisedLikelihoodRatio against the Coq model `loss_arg` / `slr_value` (ModelLoss.v):
+    (1) the array handed to np.log by the real dist2loss (observed by a tap on the module's `np`) equals `loss_arg` EXACTLY;
+    (2) the loss returned is -log of it; (3) SupervisedLikelihoodRatio.__call__ run with an exact stand-in for the log oracle
+    equals `slr_value` with the same stand-in EXACTLY (renormalize on / off, one object evaluated on two histograms)."""
+    from nipy.algorithms.registration import similarity_measures as sm
+    rng = ck.rng("distloss")
+    tinyf = float(TINY)
+    tiny = cq(TINY)
+    standin = lambda x: np.where(x <= 2.0 ** -1000, -1024.0, x)
+    terms, meta = [], []
+    real_np = sm.np
+    try:
+        for n in range(ck.n(150, 1500)):
+            q, scale = exact_dist(rng, n)
+            a, b = q.shape
+            zero_cells = int((q == 0).sum())
+            ck.count(("distloss", n), nontrivial=True, bucket="distloss:%s" % ("zero-cells" if zero_cells else "positive"))
+            replay = {"dist": q.tolist(), "scale": "2**%d" % scale}
+            # (1) + (2): the real dist2loss with the real log, argument observed
+            tap = _NumpyTap(real_np)
+            sm.np = tap
+            try:
+                L = np.array(sm.dist2loss(q.copy()), dtype=float)
+            except Exception as e:  # noqa
+                ck.fail("distloss/raises", "dist2loss raised %s: %s" % (type(e).__name__, e), replay)
+                continue
+            finally:
+                sm.np = real_np
+            # definition, exact: floored ratio q_ij / (col_j row_i)
+            cs = [max(sum(frac(float(x)) for x in q[:, j]), TINY) for j in range(b)]
+            rs = [max(sum(frac(float(x)) for x in q[i, :]), TINY) for i in range(a)]
+            arg = [[max(frac(float(q[i, j])) / cs[j] / rs[i], TINY) for j in range(b)] for i in range(a)]
+            want = np.array([[-math.log(x) for x in row] for row in arg])
+            if L.shape != q.shape or not np.all(np.isfinite(L)) or np.abs(L - want).max() > 1e-12 * 1024:
+                bad = "zero-probability-cell" if zero_cells and L.shape == q.shape and np.abs(L - want)[q == 0].max(initial=0) > 1e-9 else "cell"
+                ck.fail("distloss/loss-differs-from-definition/%s" % bad,
+                        "dist2loss returned %s, definition -log(max(q/(q_col q_row), TINY)) = %s" % (L.tolist(), want.tolist()),
+                        dict(replay, loss=L.tolist(), definition=want.tolist()))
+                continue
+            plain = [c for c in tap.calls if len(c[0]) == 1 and not c[1] and c[0][0].shape == q.shape]
+            if len(tap.calls) != 1 or len(plain) != 1:
+                ck.fail("distloss/log-argument-not-observable", "dist2loss no longer makes exactly one plain np.log(array) call "
+                        "(%d calls, keyword arguments %s): the model of its argument (ModelLoss.loss_arg) must be revisited"
+                        % (len(tap.calls), [c[1] for c in tap.calls]), replay)
+                continue
+            A = plain[0][0][0]
+            if [[frac(float(x)) for x in row] for row in A] != arg:
+                ck.fail("distloss/log-argument-differs-from-definition", "argument of log %s, definition %s" % (A.tolist(), [[float(x) for x in r] for r in arg]), replay)
+                continue
+            terms.append("qmat_eqb (loss_arg %s %s %s) %s" % (tiny, cnat(b), cqmat(q), cqmat(A)))
+            meta.append(("distloss/log-argument", dict(replay, log_argument=A.tolist())))
+            # (3) the measure with the exact stand-in for log: one object, two histograms
+            if abs(scale) > 12:
+                continue
+            renorm = bool(n % 2)
+            tap = _NumpyTap(real_np, standin)
+            sm.np = tap
+            try:
+                m = sm.SupervisedLikelihoodRatio(q.shape, renorm, q.copy())
+                for step in range(2):
+                    H = rng.integers(0, 5, size=q.shape).astype(float)
+                    if not renorm:          # total a power of two: the final division is exact
+                        H[0, 0] += 1
+                        while int(H.sum()) & (int(H.sum()) - 1):
+                            H[0, 0] += 1
+                    v = float(m(H.copy()))
+                    ck.count(("distloss-call", n, step), nontrivial=True, bucket="distloss:slr-call:%s" % ("renormalize" if renorm else "mean"))
+                    terms.append("Qeq_bool (slr_value %s %s %s %s %s %s) %s" % (STANDIN_COQ, tiny, cbool(renorm), cnat(b), cqmat(H), cqmat(q), cq(frac(v))))
+                    meta.append(("distloss/slr-call", dict(replay, H=H.tolist(), renormalize=renorm, value_with_standin_log=v, evaluation=step + 1)))
+            except Exception as e:  # noqa
+                ck.fail("distloss/slr-raises", "SupervisedLikelihoodRatio raised %s: %s" % (type(e).__name__, e), replay)
+            finally:
+                sm.np = real_np
+    finally:
+        sm.np = real_np
+    if ck.build is not None and ck.build.ok:
+        res = ck.coq_bools(HDRLOSS, terms, shard=200, name="distloss")
+        ck.cov["traces_validated_against_impl"] += len(res)
+        for ok, (what, replay) in zip(res, meta):
+            if not ok:
+                ck.fail("%s/model-vs-impl" % what, "Coq model (ModelLoss.v) and implementation disagree on %s" % replay, replay)
+                break
+    ck.section("distloss", model_terms=len(terms), standin_for_log="-1024 at or below 2^-1000, identity above")
+    ck.trust.append("np.log is an oracle: the model is parametric in it; dist2loss's log argument is observed by replacing the "
+                    "module-level name `np` of similarity_measures at run time (no source hook)")
+
+
 OPTIMIZERS = ["simplex", "powell", "cg", "bfgs", "steepest"]
 OPT_SIMS = ["cc", "cr", "crl1", "mi", "nmi"]
 
@@ -1777,6 +1917,7 @@ def run(ck):
         many_bins(ck)
     reuse(ck)
     nonsquare_measures(ck)
+    distloss(ck)
     helpers(ck)
     if not getattr(ck, "kernel_unsafe", False):
         optimize(ck)
